@@ -16,8 +16,8 @@ SETS = {
     "C07": ["--only", "seeded", "--runs", "120"],
     "C08": ["--runs", "300"],
     "C09": ["--runs", "600"],
-    "C11": ["--runs", "120"],
-    "C12": ["--runs", "200"],
+    "C11": ["--only", "seeded", "--runs", "120"],
+    "C12": ["--only", "seeded", "--runs", "200"],
     "C13": ["--only", "gen", "--runs", "80"],
     "C16": ["--runs", "260"],
     "C18": ["--runs", "300"],
